@@ -267,21 +267,33 @@ class Bench:
         self.net = network_from_json(topo, self.eq0)
         self.net, _, _ = designed_network(self.eq0, self.net)
         build_oms_list(self.net, self.eq0)
-        self.default_margin = self.eq0['SI']['default'].sys_margins
+        self.default_margin = self.ej['SI'][0]['sys_margins']       # as written (shipped libraries: one SI entry)
         self.roll_off = self.eq0['SI']['default'].roll_off
         self._paths = {}
         self._pristine = {}
 
-    def equipment(self, modes, sys_margins):
+    def si_entries(self, sys_margins=None, si_layout='file'):
+        """the SI list written into the equipment JSON.  'file': as shipped (margin replaced when given); 'named': two
+        entries, both explicitly named, the documented default (first listed) with the wanted margin and a second one
+        with 4 dB more; 'default-second': an entry with 4 dB more listed first, the one named "default" second"""
+        base = copy.deepcopy(self.ej['SI'])
+        m = base[0]['sys_margins'] if sys_margins is None else sys_margins
+        base[0]['sys_margins'] = m
+        if si_layout == 'file':
+            return base
+        other = dict(copy.deepcopy(base[0]), sys_margins=m + 4.0)
+        if si_layout == 'named':
+            return [dict(base[0], type_variety='cband'), dict(other, type_variety='lband')]
+        return [dict(other, type_variety='lband'), dict(base[0], type_variety='default')]
+
+    def equipment(self, modes, sys_margins, si_layout='file'):
         from gnpy.tools.json_io import _equipment_from_json, DEFAULT_EXTRA_CONFIG
         # the loader rewrites Transceiver entries only (measured): everything else can be shared between calls
         ej = dict(self.ej)
-        ej['SI'] = copy.deepcopy(self.ej['SI'])
+        ej['SI'] = self.si_entries(sys_margins, si_layout)
         ej['Transceiver'] = copy.deepcopy([t for t in self.ej['Transceiver'] if t['type_variety'] != TRX])
         ej['Transceiver'].append({'type_variety': TRX, 'frequency': {'min': 191.35e12, 'max': 196.1e12},
                                   'mode': copy.deepcopy(modes)})
-        if sys_margins is not None:
-            ej['SI'][0]['sys_margins'] = sys_margins
         return _equipment_from_json(ej, DEFAULT_EXTRA_CONFIG)
 
     def trx_uids(self):
@@ -482,6 +494,11 @@ def project_reported(receiver, mode_idx):
     n = len(receiver.snr_01nm)
     return dict(kind=2, mode=mode_idx, dir=1, rxdb=[udb(x) for x in receiver.snr_01nm],
                 tot=arr_udb(receiver.total_penalty, n))
+
+
+def si_int(entries):
+    """SI entries as WRITTEN -> [{'dflt': bool, 'margin': micro-dB}] for FeasibilityOps.DefaultMargin"""
+    return [{'dflt': e.get('type_variety', 'default') == 'default', 'margin': udb(e['sys_margins'])} for e in entries]
 
 
 def stage_inv(st):
